@@ -26,7 +26,7 @@ func init() {
 		Level: "exploration",
 		Rule: "E1 bounded-exhaustive enumeration: AllPaths on every level mask of height ≤H × every ordered pair (from,to) of the boundary set {p, p-1, p+1, p with a flipped mask bit, p with a flipped search bit | every node p, stored or not} ∪ {0, 2^32-1, 2^32, 2^63, 2^64-1} (heights above H with the pair set {p, p±1}²), oracle = stored nodes of the recursive walk, sorted, filtered by from ≤ p < to; " +
 			"tall sparse masks up to height 30 with narrow windows around a path family, oracle = stored prefixes of the integers in the window (cross-checked against the walk on small heights). " +
-			"Decode on every mask with ≤16 stored nodes × every subset × bitmap shapes {exact, no words, extra words, garbage in bits ≥ size}, and on masks up to height 8 with empty/full/singleton/pair subsets; oracle = i-th stored node of the walk for every set bit i < size. " +
+			"Decode on every mask with ≤16 stored nodes × every subset × bitmap shapes {exact, no words, extra words, garbage in bits ≥ size}, on masks up to height 8 with empty/full/singleton/pair subsets, and on multi-word masks of heights 7..9 (thorough 11; leaf-only, full, leaf + one level) with singletons and pairs of indexes next to word boundaries at EVERY bitmap length; oracle = i-th stored node of the walk for every set bit i < size. " +
 			"A case is one call; non-trivial when the expected output is neither empty nor the complete node list.",
 		Assumptions: []string{
 			"complete over (from,to) only on the boundary set; tall masks only with windows that keep the output small",
@@ -348,6 +348,7 @@ func c04Run(c *mc.Ctx) {
 		}
 	})
 
+	c04DecodeTall(c, c.Pick(9, 11))
 	// ---- Decode: larger masks with empty / full / singletons / pairs (bitmaps of several words)
 	var lj []int32
 	for h := 4; h <= decH; h++ {
@@ -411,6 +412,79 @@ func c04Run(c *mc.Ctx) {
 		}
 		c.Count(evals, nontriv)
 		c.Add("decode_calls", evals)
+	})
+}
+
+// c04DecodeTall: multi-word masks (heights 7..H): leaf-only, full and leaf+one-level masks ×
+// singletons and pairs of indexes next to word boundaries × EVERY bitmap length from "just
+// long enough for the highest set bit" to one word more than the mask needs.
+func c04DecodeTall(c *mc.Ctx, maxH int) {
+	type job struct {
+		mask int32
+	}
+	var jobs []job
+	for h := 7; h <= maxH; h++ {
+		top := int32(1) << uint(h)
+		jobs = append(jobs, job{top}, job{top<<1 - 1})
+		for j := 0; j < h; j++ {
+			jobs = append(jobs, job{top | 1<<uint(j)})
+		}
+	}
+	c.Par(len(jobs), func(ji int) {
+		if c.TooMany() {
+			return
+		}
+		mask := jobs[ji].mask
+		_, stored := treeNodes(mask)
+		T := int(mask)
+		nw := (T + 63) / 64
+		var idx []int
+		seen := map[int]bool{}
+		add := func(i int) {
+			if i >= 0 && i < T && !seen[i] {
+				seen[i] = true
+				idx = append(idx, i)
+			}
+		}
+		add(0)
+		add(T - 1)
+		for k := 1; k <= nw; k++ {
+			add(64*k - 1)
+			add(64 * k)
+			add(64*k + 1)
+		}
+		sort.Ints(idx)
+		var evals, nontriv int64
+		run := func(set []int) {
+			hi := set[len(set)-1]
+			for l := hi>>6 + 1; l <= nw+1; l++ {
+				bm := make([]uint64, l)
+				want := make([]uint64, 0, len(set))
+				for _, i := range set {
+					bm[i>>6] |= 1 << uint(i&63)
+					want = append(want, stored[i])
+				}
+				sort.Slice(want, func(a, b int) bool { return want[a] < want[b] })
+				got, p := decode(mask, bm)
+				if p != "" || !eqU64(got, want) {
+					c.Fail(5<<48|int64(ji)<<32|evals, "Decode", "Decode/tall", c04Case{Mask: mask, BM: bm}, p+hexs(got), hexs(want))
+				}
+				evals++
+				if l < nw {
+					nontriv++
+				}
+			}
+		}
+		for a, i := range idx {
+			run([]int{i})
+			for _, j := range idx[a+1:] {
+				run([]int{i, j})
+			}
+		}
+		c.Count(evals, nontriv)
+		c.Expect(evals)
+		c.Add("decode_calls", evals)
+		c.Add("decode_tall_calls", evals)
 	})
 }
 
